@@ -17,26 +17,7 @@ broadcast use vstd::std_specs::hash::group_hash_axioms;
 //@@ PDFERROR
 //@@ DEVIATIONS
 
-pub type ObjNr = u64;
-pub type GenNr = u64;
-
-// =====================================================================================================
-// env: foreign types (models, not extracted: other crates)
-// =====================================================================================================
-
-// istring::IBytes -- an owned byte buffer (as in units/serial_leaf)
-pub struct IBytes { pub v: Vec<u8> }
-impl View for IBytes { type V = Seq<u8>; open spec fn view(&self) -> Seq<u8> { self.v@ } }
-
-// istring::SmallString -- an owned str; `Deref<Target = str>` is made explicit as `as_str()` (R2)
-pub struct SmallString { pub s: String }
-impl View for SmallString { type V = Seq<char>; open spec fn view(&self) -> Seq<char> { self.s@ } }
-impl SmallString {
-    pub fn as_str(&self) -> (r: &str) ensures r@ == self@ { self.s.as_str() }
-}
-
-// indexmap::IndexMap -- insertion-ordered map; the serialiser only iterates it: model = the entries in iteration order
-pub struct IndexMap<K, V> { pub entries: Vec<(K, V)> }
+//@@ INCLUDE primser/spec/w0_env_types.rs
 
 // `impl io::Write`: the abstract sink of units/serial_leaf. view = the bytes accepted so far; `infallible` = write_all never
 // returns Err (true of Vec<u8>, the sink `Storage::save` and `serialize_ops` use).
@@ -55,209 +36,9 @@ pub open spec fn wrote(o: &Sink, n: &Sink, r: Result<()>, bytes: Seq<u8>) -> boo
     &&& o.infallible() ==> r is Ok
     &&& n.infallible() == o.infallible()
 }
-// bytes of an ASCII string literal
-pub open spec fn lit_bytes(s: Seq<char>) -> Seq<u8> { Seq::new(s.len(), |i: int| s[i] as u8) }
-pub open spec fn hexdig(n: int) -> u8 { if n < 10 { (48 + n) as u8 } else { (87 + n) as u8 } }
+//@@ INCLUDE primser/spec/w1_lit_hexdig.rs
 
-// =====================================================================================================
-// spec: spellings, written from ISO 32000-1:2008 7.2.2, 7.3 (not from the code)
-// =====================================================================================================
-
-// ---- 7.2.2 character classes (Tables 1, 2)
-pub open spec fn is_ws(b: u8) -> bool { b == 0 || b == 9 || b == 10 || b == 12 || b == 13 || b == 32 }
-pub open spec fn is_delim(b: u8) -> bool {
-    b == 40 || b == 41 || b == 60 || b == 62 || b == 91 || b == 93 || b == 123 || b == 125 || b == 47 || b == 37
-}
-pub open spec fn is_regular(b: u8) -> bool { !is_ws(b) && !is_delim(b) }
-pub open spec fn all_ws(s: Seq<u8>) -> bool { forall|i: int| 0 <= i < s.len() ==> is_ws(#[trigger] s[i]) }
-
-// ---- white-space between tokens.  7.2.2: "White-space characters separate syntactic constructs such as names and numbers
-// from each other"; two adjacent tokens need it exactly when the first ends and the second starts with a regular
-// character.  WHICH white-space is written is not forced by ISO: these constants fix one choice (the writer's); the
-// read-back lemmas below use nothing but `seps_ok()`.
-pub open spec fn SEP_ELEM() -> Seq<u8> { seq![32u8] }        // between array elements
-pub open spec fn SEP_DICT_OPEN() -> Seq<u8> { seq![10u8] }   // after `<<`
-pub open spec fn SEP_KEY() -> Seq<u8> { seq![32u8] }         // between a key and its value
-pub open spec fn SEP_ENTRY() -> Seq<u8> { seq![10u8] }       // after a value, before the next key or `>>`
-pub open spec fn SEP_DICT_CLOSE() -> Seq<u8> { seq![10u8] }  // after `>>`
-pub open spec fn SEP_REF() -> Seq<u8> { seq![32u8] }         // inside `id gen R`, `id gen obj`
-// 7.3.8.1: the keyword `stream` "shall be followed by an end-of-line marker consisting of either a CARRIAGE RETURN and a
-// LINE FEED or just a LINE FEED"; "There should be an end-of-line marker after the data and before endstream"
-pub open spec fn STREAM_EOL() -> Seq<u8> { seq![10u8] }
-pub open spec fn DATA_EOL() -> Seq<u8> { seq![10u8] }
-pub open spec fn SEP_ENDSTREAM() -> Seq<u8> { seq![10u8] }   // after `endstream`
-// 7.3.10 indirect object: `objnum gen obj` <object> `endobj`
-pub open spec fn SEP_OBJ() -> Seq<u8> { seq![10u8] }         // after `obj`
-pub open spec fn SEP_BODY() -> Seq<u8> { seq![10u8] }        // after the object, before `endobj` (the object may end in a regular character)
-pub open spec fn SEP_ENDOBJ() -> Seq<u8> { seq![10u8] }      // after `endobj`
-pub open spec fn seps_ok() -> bool {
-    &&& all_ws(SEP_ELEM()) && SEP_ELEM().len() > 0
-    &&& all_ws(SEP_DICT_OPEN())
-    &&& all_ws(SEP_KEY()) && SEP_KEY().len() > 0
-    &&& all_ws(SEP_ENTRY())
-    &&& all_ws(SEP_DICT_CLOSE())
-    &&& all_ws(SEP_REF()) && SEP_REF().len() > 0
-    &&& (STREAM_EOL() == seq![10u8] || STREAM_EOL() == seq![13u8, 10u8])
-    &&& (DATA_EOL().len() == 0 || DATA_EOL() == seq![10u8] || DATA_EOL() == seq![13u8] || DATA_EOL() == seq![13u8, 10u8])
-    &&& all_ws(SEP_ENDSTREAM())
-    &&& all_ws(SEP_OBJ()) && SEP_OBJ().len() > 0
-    &&& all_ws(SEP_BODY()) && SEP_BODY().len() > 0
-    &&& all_ws(SEP_ENDOBJ())
-}
-
-// ---- keywords and delimiters (7.3.2, 7.3.6, 7.3.7, 7.3.8, 7.3.9, 7.3.10)
-pub open spec fn KW_NULL() -> Seq<u8> { seq![110u8, 117, 108, 108] }
-pub open spec fn KW_TRUE() -> Seq<u8> { seq![116u8, 114, 117, 101] }
-pub open spec fn KW_FALSE() -> Seq<u8> { seq![102u8, 97, 108, 115, 101] }
-pub open spec fn KW_R() -> Seq<u8> { seq![82u8] }
-pub open spec fn KW_OBJ() -> Seq<u8> { seq![111u8, 98, 106] }
-pub open spec fn KW_ENDOBJ() -> Seq<u8> { seq![101u8, 110, 100, 111, 98, 106] }
-pub open spec fn KW_STREAM() -> Seq<u8> { seq![115u8, 116, 114, 101, 97, 109] }
-pub open spec fn KW_ENDSTREAM() -> Seq<u8> { seq![101u8, 110, 100, 115, 116, 114, 101, 97, 109] }
-pub open spec fn ARRAY_OPEN() -> Seq<u8> { seq![91u8] }
-pub open spec fn ARRAY_CLOSE() -> Seq<u8> { seq![93u8] }
-pub open spec fn DICT_OPEN() -> Seq<u8> { seq![60u8, 60] }
-pub open spec fn DICT_CLOSE() -> Seq<u8> { seq![62u8, 62] }
-
-// ---- 7.3.3 integer: "one or more decimal digits optionally preceded by a sign"; the value is read in base 10
-pub open spec fn dec_digits(n: nat) -> Seq<u8> decreases n {
-    if n < 10 { seq![(48 + n) as u8] } else { dec_digits(n / 10) + seq![(48 + n % 10) as u8] }
-}
-pub open spec fn dec_int(i: int) -> Seq<u8> { if i < 0 { seq![45u8] + dec_digits((-i) as nat) } else { dec_digits(i as nat) } }
-
-// ---- 7.3.3 real: "one or more decimal digits with an optional sign and a leading, trailing, or embedded PERIOD".
-// No exponent form exists in PDF.  The decimal digits of an f32 come from core::fmt (`Display for f32`), which is out of
-// reach: `f32_display` is uninterpreted and `display_req()` states what the read-back needs of it (trusted, sampled
-// natively: findings/real_without_period.md).  A real SHALL contain a PERIOD: a token without one is an integer object.
-pub uninterp spec fn f32_display(n: f32) -> Seq<u8>;     // what `{}` prints
-pub uninterp spec fn f32_debug(n: f32) -> Seq<u8>;       // what `{:?}` prints (may use an exponent: 1e16, 1e-7)
-pub uninterp spec fn f32_finite(n: f32) -> bool;
-pub uninterp spec fn f32_of_decimal(t: Seq<u8>) -> f32;  // the f32 nearest to the decimal numeral t (what the reader computes)
-pub open spec fn has_period(t: Seq<u8>) -> bool { exists|i: int| 0 <= i < t.len() && #[trigger] t[i] == 46 }
-pub open spec fn is_digit(b: u8) -> bool { 48 <= b <= 57 }
-// [-] d+ [ . d+ ]
-pub open spec fn is_plain_decimal(t: Seq<u8>) -> bool {
-    let k: int = if t.len() > 0 && t[0] == 45 { 1 } else { 0 };
-    &&& t.len() > k && is_digit(t[k]) && is_digit(t[t.len() - 1])
-    &&& forall|i: int| k <= i < t.len() ==> is_digit(#[trigger] t[i]) || t[i] == 46
-    &&& forall|i: int, j: int| k <= i < j < t.len() ==> !(#[trigger] t[i] == 46 && #[trigger] t[j] == 46)
-}
-// REQUIREMENT on `Display for f32` (trusted): for finite values no exponent form, no `inf`/`NaN`, and the text denotes
-// the value (core::fmt prints the shortest decimal that rounds to it).
-pub open spec fn display_req() -> bool {
-    forall|n: f32| f32_finite(n) ==> is_plain_decimal(#[trigger] f32_display(n)) && f32_of_decimal(f32_display(n)) == n
-}
-pub open spec fn with_period(t: Seq<u8>) -> Seq<u8> { if has_period(t) { t } else { t + seq![46u8, 48u8] } }
-// C04 quantifies over finite reals only; for inf / NaN the spec takes whatever Display prints (TOL_NONFINITE_REAL)
-pub open spec fn spell_real(n: f32) -> Seq<u8> {
-    if TOL_NONFINITE_REAL() && !f32_finite(n) { f32_display(n) }
-    else if DEV_REAL_WITHOUT_PERIOD() { f32_display(n) }
-    else { with_period(f32_display(n)) }
-}
-
-// ---- 7.3.4 strings, 7.3.5 names: spellings of units/serial_leaf (same text)
-pub open spec fn hex_byte(b: u8) -> Seq<u8> { seq![hexdig(b as int / 16), hexdig(b as int % 16)] }
-pub open spec fn hex_body(d: Seq<u8>) -> Seq<u8> decreases d.len() {
-    if d.len() == 0 { Seq::empty() } else { hex_body(d.drop_last()) + hex_byte(d.last()) }
-}
-pub open spec fn spell_hex(d: Seq<u8>) -> Seq<u8> { seq![60u8] + hex_body(d) + seq![62u8] }
-pub open spec fn lit_byte(b: u8) -> Seq<u8> {
-    if b == 92 || b == 40 || b == 41 { seq![92u8, b] } else if b == 13 { seq![92u8, 114u8] } else { seq![b] }
-}
-pub open spec fn lit_body(d: Seq<u8>) -> Seq<u8> decreases d.len() {
-    if d.len() == 0 { Seq::empty() } else { lit_body(d.drop_last()) + lit_byte(d.last()) }
-}
-pub open spec fn spell_lit(d: Seq<u8>) -> Seq<u8> { seq![40u8] + lit_body(d) + seq![41u8] }
-// both forms are conformant for every content; which one the writer takes is a function of the content only
-pub uninterp spec fn string_form_is_hex(d: Seq<u8>) -> bool;
-pub open spec fn spell_string(d: Seq<u8>) -> Seq<u8> { if string_form_is_hex(d) { spell_hex(d) } else { spell_lit(d) } }
-pub open spec fn name_plain(b: u8) -> bool { is_regular(b) && b != 35 && 33 <= b <= 126 }
-pub open spec fn name_byte(b: u8) -> Seq<u8> {
-    if name_plain(b) { seq![b] } else { seq![35u8, hexdig(b as int / 16), hexdig(b as int % 16)] }
-}
-pub open spec fn name_body(d: Seq<u8>) -> Seq<u8> decreases d.len() {
-    if d.len() == 0 { Seq::empty() } else { name_body(d.drop_last()) + name_byte(d.last()) }
-}
-pub open spec fn spell_name(s: Seq<char>) -> Seq<u8> { seq![47u8] + name_body(encode_utf8(s)) }
-
-// ---- 7.3.10 indirect reference: "the object number, the generation number, and the keyword R"
-pub open spec fn spell_ref(id: ObjNr, gen: GenNr) -> Seq<u8> {
-    dec_int(id as int) + SEP_REF() + dec_int(gen as int) + SEP_REF() + KW_R()
-}
-
-// ---- the object model (7.3.2 - 7.3.9): one spelling per value
-pub open spec fn spell(v: Primitive) -> Seq<u8> decreases v, 0nat {
-    match v {
-        Primitive::Null => KW_NULL(),
-        Primitive::Integer(i) => dec_int(i as int),
-        Primitive::Number(n) => spell_real(n),
-        Primitive::Boolean(b) => if b { KW_TRUE() } else { KW_FALSE() },
-        Primitive::String(s) => spell_string(s.data@),
-        Primitive::Stream(s) => spell_stream(s),
-        Primitive::Dictionary(d) => spell_dict(d),
-        Primitive::Array(a) => spell_array(a@),
-        Primitive::Reference(r) => spell_ref(r.id, r.gen),
-        Primitive::Name(s) => spell_name(s@),
-    }
-}
-// 7.3.6: "a sequence of objects enclosed in SQUARE BRACKETS"
-pub open spec fn spell_elems(a: Seq<Primitive>, n: nat) -> Seq<u8> decreases a, n {
-    if n == 0 || n > a.len() { Seq::empty() }
-    else if n == 1 { spell(a[0]) }
-    else { spell_elems(a, (n - 1) as nat) + SEP_ELEM() + spell(a[n - 1]) }
-}
-pub open spec fn spell_array(a: Seq<Primitive>) -> Seq<u8> decreases a, a.len() + 1 {
-    ARRAY_OPEN() + spell_elems(a, a.len()) + ARRAY_CLOSE()
-}
-// 7.3.7: "a sequence of key-value pairs enclosed in double angle brackets"; "The key shall be a name" -- written as any
-// other name object (7.3.5), DEV_DICT_KEY_RAW: as its raw bytes after a SOLIDUS
-pub open spec fn spell_key(k: Name) -> Seq<u8> {
-    if DEV_DICT_KEY_RAW() { seq![47u8] + encode_utf8(k.0@) } else { spell_name(k.0@) }
-}
-pub open spec fn spell_entries(e: Seq<(Name, Primitive)>, n: nat) -> Seq<u8> decreases e, n {
-    if n == 0 || n > e.len() { Seq::empty() }
-    else { spell_entries(e, (n - 1) as nat) + spell_key(e[n - 1].0) + SEP_KEY() + spell(e[n - 1].1) + SEP_ENTRY() }
-}
-pub open spec fn spell_dict(d: Dictionary) -> Seq<u8> decreases d, 0nat {
-    DICT_OPEN() + SEP_DICT_OPEN() + spell_entries(d.dict.entries@, d.dict.entries@.len()) + DICT_CLOSE() + SEP_DICT_CLOSE()
-}
-// 7.3.8.1: dictionary, `stream`, EOL, the bytes, [EOL], `endstream`
-pub open spec fn stream_data(s: PdfStream) -> Seq<u8> {
-    match s.inner { StreamInner::Pending { data } => data@, StreamInner::InFile { id, file_range } => Seq::empty() }
-}
-pub open spec fn spell_stream(s: PdfStream) -> Seq<u8> decreases s, 1nat {
-    spell_dict(s.info) + KW_STREAM() + STREAM_EOL() + stream_data(s) + DATA_EOL() + KW_ENDSTREAM() + SEP_ENDSTREAM()
-}
-// 7.3.10: "the object number and generation number, separated by white space, then the keyword obj ... endobj"
-pub open spec fn obj_header(id: ObjNr, gen: GenNr) -> Seq<u8> {
-    dec_int(id as int) + SEP_REF() + dec_int(gen as int) + SEP_REF() + KW_OBJ() + SEP_OBJ()
-}
-pub open spec fn obj_trailer() -> Seq<u8> {
-    (if DEV_NO_SEPARATOR_BEFORE_ENDOBJ() { Seq::<u8>::empty() } else { SEP_BODY() }) + KW_ENDOBJ() + SEP_ENDOBJ()
-}
-pub open spec fn spell_indirect(id: ObjNr, gen: GenNr, v: Primitive) -> Seq<u8> { obj_header(id, gen) + spell(v) + obj_trailer() }
-
-// a value the serialiser can write: stream data held in memory (an `InFile` stream has no bytes at hand: `Err`)
-pub open spec fn serializable(v: Primitive) -> bool decreases v, 0nat {
-    match v {
-        Primitive::Stream(s) => stream_serializable(s),
-        Primitive::Dictionary(d) => dict_serializable(d),
-        Primitive::Array(a) => list_serializable(a@, a@.len()),
-        _ => true,
-    }
-}
-pub open spec fn list_serializable(a: Seq<Primitive>, n: nat) -> bool decreases a, n {
-    if n == 0 || n > a.len() { true } else { list_serializable(a, (n - 1) as nat) && serializable(a[n - 1]) }
-}
-pub open spec fn entries_serializable(e: Seq<(Name, Primitive)>, n: nat) -> bool decreases e, n {
-    if n == 0 || n > e.len() { true } else { entries_serializable(e, (n - 1) as nat) && serializable(e[n - 1].1) }
-}
-pub open spec fn dict_serializable(d: Dictionary) -> bool decreases d, 0nat {
-    entries_serializable(d.dict.entries@, d.dict.entries@.len())
-}
-pub open spec fn stream_serializable(s: PdfStream) -> bool decreases s, 1nat {
-    s.inner is Pending && dict_serializable(s.info)
-}
+//@@ INCLUDE primser/spec/w2_spell.rs
 
 // =====================================================================================================
 // L0 helpers (R7): formatting machinery Verus cannot read.  Bodies are the hoisted source expressions
